@@ -4,3 +4,4 @@ pub mod c04;
 pub mod c05;
 pub mod c09;
 pub mod c10;
+pub mod c12;
